@@ -474,15 +474,20 @@ class Execution:
                 self.finished = True
                 self.main_baton.release()
                 return
-            if any(t.status is BLOCK for t in unfinished):
+            sleepers = [t for t in unfinished if t.status is SLEEP]
+            if not sleepers:
                 self._abort(me, "deadlock", self._describe(unfinished))
-            else:
-                self._abort(me, "livelock", self._describe(unfinished))
-            return
+                return
+            # nobody else can take a step: the sleepers' timers simply expire and they poll again
+            enabled = sleepers
         if kind is SLEEP:
+            # livelock: every unfinished thread is a sleeper/poller that has completed a whole polling round at the same
+            # place without any write to the shared state in between (or is blocked on a lock one of them holds)
             unfinished = [t for t in threads if t.status is not DONE]
-            if all(t.status is SLEEP and t.clean and t.last_sleep_seq == self.write_seq for t in unfinished):
-                self._abort(me, "livelock", self._describe(unfinished))
+            if all((t.status is SLEEP and t.clean and t.last_sleep_seq == self.write_seq)
+                   or (t.status is BLOCK and t.lock.owner is not None) for t in unfinished):
+                self._abort(me, "deadlock" if any(t.status is BLOCK for t in unfinished) else "livelock",
+                            self._describe(unfinished))
                 return
         me_enabled = me is not None and me.status is RUN
         if me_enabled:
@@ -528,10 +533,10 @@ class Execution:
         self._switch(me, nxt, kind)
 
     def _switch(self, me, nxt, kind):
-        if nxt is me:
-            return
         if nxt.status is not NEW:
             nxt.status = RUN
+        if nxt is me:
+            return
         nxt.baton.release()
         if me is None or kind is END:
             return
